@@ -8,4 +8,24 @@ ASSUMPTIONS = ["A-PY, A-TYPES", "A-CALLBACK: user callbacks return to their call
 
 
 def targets(eng):
-    return cb.targets_for(eng, ["C16"], ["C16"])
+    from pyvc.engine import Engine
+    out = cb.targets_for(eng, ["C16"], ["C16"])
+    # the client-side methods run in their own engine instance (client model of the connection)
+    from contracts import client
+    e2 = Engine()
+    for t in client.targets_for(e2, ["c16"], ["C16"]):
+        out.append(_wrap(t, "c16", "C16"))
+    return out
+
+
+def _wrap(t, key, mod):
+    def run(eng, opts, name=t.name):
+        from pyvc.engine import Engine
+        from contracts import client
+        e3 = Engine()
+        tt = [x for x in client.targets_for(e3, [key], [mod]) if x.name == name][0]
+        tt.run(e3, opts)
+        eng.obligations.extend(e3.obligations)
+        eng.assumptions_used |= e3.assumptions_used
+        eng.bounded_used = getattr(eng, "bounded_used", []) + list(getattr(e3, "bounded_used", []))
+    return Target(t.name, "contract", run, functions=t.functions)
